@@ -934,7 +934,9 @@ class Tensor:
         relationship with the view-tensor since these are measures of "cause and effects"
         associated with varying elements of data (albeit infinitesmaly).
         """
-        if self._base is None:
+        if self._base is None or self._constant:
+            # (a constant tensor never exposes a gradient, even as a view of
+            # a non-constant tensor)
             return self._grad
 
         if self._view_grad is not None and self._view_grad.base is self._base._grad:
